@@ -79,6 +79,11 @@ def side_of(stack, facts):
         for c in mm["calls"]:
             if c["line"] == line and c["field"] >= 0:
                 cands.append(dict(field=c["field"]))
+        if not cands:
+            # an alias of guarded memory used after the lock was released (escape hand-out recorded at this line)
+            hs = [h for h in mm.get("handouts", []) if h["line"] == line and h.get("escape")]
+            hs.sort(key=lambda h: h["field"], reverse=True)
+            cands = [dict(field=h["field"]) for h in hs]
         if cands:
             field = t["fields"][cands[0]["field"]]["name"]
         elif any(s["line"] == line for s in mm["sections"]):
@@ -250,7 +255,7 @@ def custom(ctx):
             for s in subjects:
                 for p in partners:
                     pre = ",".join(f"{T}.{w}" for w in writers_of(facts, T, field)[:2])
-                    r = run_conc(["pair", s, f"{T}.{p}", "-iters", "300" if not thorough else "1500", "-timeout", to] + (["-prefill", pre] if pre else []),
+                    r = run_conc(["pair", s, f"{T}.{p}", "-iters", ("300" if kind == "race" else "2000") if not thorough else "6000", "-timeout", to] + (["-prefill", pre] if pre else []),
                                  work, f"pair-{s}-{p}".replace(".", "_"), 180)
                     runs.append(r)
                     ds, n, raw = parse_race_logs(r["logs"], facts)
@@ -262,6 +267,18 @@ def custom(ctx):
                         found += [f"deadlock: {l.split(' ', 1)[1]} blocks forever" for l in r["lines"] if l.startswith("blocked ")]
                 if found:
                     break
+        elif kind == "crossrace":
+            # an unlocked helper is called on ANOTHER instance (parent / forked child): the scenario with forked
+            # caches, lookups through children while the parent and the siblings append
+            r = run_conc(["stress-race", "pubkeyfork", "-g", "8", "-iters", "4000" if not thorough else "40000", "-timeout", to], work, f"fork-{T}-{M}", 300)
+            runs.append(r)
+            ds, n, raw = parse_race_logs(r["logs"], facts)
+            cov["race_reports"] += n
+            found += ds
+            found += [l.split(" ", 1)[1] for l in r["lines"] if l.startswith("violation ")]
+            found += [f"deadlock: {l.split(' ', 1)[1]} blocks forever" for l in r["lines"] if l.startswith("blocked ")]
+            if r["fatal"]:
+                found.append(r["fatal"])
         elif kind == "nonlin":
             r = run_conc(["nonlin", T, M, "-rounds", "300" if not thorough else "3000", "-g", "4", "-timeout", to], work, f"nl-{T}-{M}", 300)
             runs.append(r)
@@ -276,6 +293,8 @@ def custom(ctx):
             "race": "Zrnt.Proofs.C17.unguarded_access_races / writing_reader_races: the other thread acquires, then both accesses are enabled together",
             "handout": "Zrnt.Proofs.C17.unguarded_access_races: the caller uses the returned alias outside the lock while a writer runs",
             "nonlin": "Zrnt.Proofs.C17.two_sections_not_linearizable: schedule [0,0,0,1,1,1,0,0,0,1,1,1]",
+            "crossrace": "Zrnt.Proofs.C17.unguarded_access_races: the thread working on the child holds only the CHILD's lock while it reads the parent's field; "
+                         "the thread appending to the parent acquires the parent's lock, then both accesses are enabled together",
         }.get(kind, kind), commands=[r["cmd"] for r in runs])
         if found:
             for d in sorted(set(found)):
@@ -287,8 +306,10 @@ def custom(ctx):
     # ---- 2. stress: every shared component, race mode (no harness synchronisation) and linearizability mode
     g = "8" if not thorough else "16"
     plan = []
+    plan.append(("pubkeyfork", "stress-race", ["-g", g, "-iters", "20000" if not thorough else "200000", "-seed", str(seed), "-timeout", "5000" if not thorough else "15000"]))
     for comp in ("pools", "pubkey", "fc"):
-        plan.append((comp, "stress-race", ["-g", g, "-iters", "20000" if not thorough else "200000", "-seed", str(seed), "-timeout", "5000" if not thorough else "15000"]))
+        it = ("10000" if not thorough else "100000") if comp == "pools" else ("20000" if not thorough else "200000")
+        plan.append((comp, "stress-race", ["-g", g, "-iters", it, "-seed", str(seed), "-timeout", "5000" if not thorough else "15000"]))
         plan.append((comp, "stress-lin", ["-g", g, "-iters", "2880" if not thorough else "28800", "-timeout", "5000" if not thorough else "15000"]))
     calls = 0
     stats_all = {}
@@ -414,6 +435,7 @@ PROPS = {"C17": dict(
         "Zrnt.Proofs.C17.readers_pure",
         "Zrnt.Proofs.C17.single_section",
         "Zrnt.Proofs.C17.no_unsynchronised_handout",
+        "Zrnt.Proofs.C17.cross_instance_calls_locked",
         "Zrnt.Proofs.C17.rows_wellFormed",
         "Zrnt.Proofs.C17.table_system_safe",
         "Zrnt.Proofs.C17.baseline_no_reentry_false",
